@@ -11,8 +11,8 @@ class C11(Prop):
     id = "C11"
     title = "Subscriber and PLMN identities are encoded per TS 24.501 / TS 38.413"
     lean_module = "Stgutg.Props.C11"
-    extra_modules = ["Stgutg.Proofs.GenTieSuci", "Stgutg.Proofs.GenTieConvert"]
-    gen = ["pure-suci", "pure-convert"]
+    extra_modules = ["Stgutg.Proofs.GenTieSuci", "Stgutg.Proofs.GenTieConvert", "Stgutg.Gen.PureSelftest"]
+    gen = ["pure-suci", "pure-convert", "pure-selftest"]
     theorems = [
         # tie by translation: the definitions regenerated from utils.go / PlmnId.go ARE the hand models
         "Stgutg.Proofs.GenTie.Suci.hexCharToByte_eq", "Stgutg.Proofs.GenTie.Suci.EncodeSuci_eq",
@@ -36,7 +36,7 @@ class C11(Prop):
             "malformed stream (short IMSIs, hex letters, arbitrary bytes, odd mncLen); thorough tier adds suci-mcc0..9 = all 1000 MCC x "
             "1100 MNC (2- and 3-digit), MSIN length cycling 1..10; non-trivial = the call returned an encoding; distinct by op line")
     trusted_base = [
-        "TIE BY TRANSLATION (gen pure-suci / pure-convert, harness/cmd/gen/pure*.go -> lean/Stgutg/Gen/Pure{Suci,Convert}.lean, regenerated from the source text on every run): stgutg.hexCharToByte, stgutg.EncodeSuci (whole function: buffer, Len, panics) and nasConvert.PlmnIDToNas (strconv.Atoi(string(b)) of one byte is interpreted by the runtime: Go.atoiByte). The theorems GenTie.Suci.{hexCharToByte_eq, EncodeSuci_eq, EncodeSuci_buffer} and GenTie.Convert.PlmnIDToNas_eq prove generated definition = hand model for ALL inputs, so a change of the Go text changes the generated definition and the theorem stops checking, whatever input would show it. Trusted here instead of sampling: the translator's grammar and its runtime Gen/PureRt.lean (Go's fixed-width arithmetic, index / slice panics, value semantics of slices under the translator's no-alias check, go/types constant evaluation); a construct outside the grammar fails closed (TRANSLATOR-FAILED file:line)",
+        "TIE BY TRANSLATION (gen pure-suci / pure-convert, harness/cmd/gen/pure*.go -> lean/Stgutg/Gen/Pure{Suci,Convert}.lean, regenerated from the source text on every run): stgutg.hexCharToByte, stgutg.EncodeSuci (whole function: buffer, Len, panics) and nasConvert.PlmnIDToNas (strconv.Atoi(string(b)) of one byte is interpreted by the runtime: Go.atoiByte). The theorems GenTie.Suci.{hexCharToByte_eq, EncodeSuci_eq, EncodeSuci_buffer} and GenTie.Convert.PlmnIDToNas_eq prove generated definition = hand model for ALL inputs, so a change of the Go text changes the generated definition and the theorem stops checking, whatever input would show it. Trusted here instead of sampling: the translator's grammar and its runtime Gen/PureRt.lean (Go's fixed-width arithmetic, index / slice panics, value semantics of slices under the translator's no-alias check, go/types constant evaluation); a construct outside the grammar fails closed (TRANSLATOR-FAILED file:line); the translator and its runtime are themselves checked against the Go compiler on every run: gen pure-selftest translates harness/cmd/gen/pureselftest/fns.go and writes the results of EXECUTING the compiled functions beside the translation (Gen/PureSelftest.lean: 97 calls incl. wrap-around, MinInt / -1, division by zero, index / slice panics, shadowing, break / continue, receiver mutation, as kernel-checked equalities)",
         'Model/Suci.lean (EncodeSuci, hexCharToByte, the ngsetup.go PLMN expression, TestPlmn copies of BuildNGSetupRequest / user-location builders) and Model/Convert.lean plmnIDToNas are hand models tied by the suci domain (impl = model on every case, panics included)',
         'Spec/Ts24501Identity.lean is my transcription of TS 24.501 figure 9.11.3.4.3 / table 9.11.3.4.1 (SUCI, SUPI format IMSI, null scheme) and of the 3-octet PLMN layout of TS 24.501 / TS 24.008 10.5.1.3; the decoder is independent of the encoder (theorem C11_suci uses only the decoder)',
         'op ngsetup drives the real stgutg.ManageNGSetup over an AF_UNIX SOCK_SEQPACKET socketpair wrapped by sctp.NewSCTPConn and echoes the request as the answer',
